@@ -40,6 +40,12 @@ fn advance<P: IAnyVecRawPtr>(it: &mut crate::iter::Iter<'_, P>, start: usize, en
 }
 
 fn drain_h<T: 'static>(typed: bool, drop: bool, how: usize) {
+    drain_hb::<T>(typed, drop, how, usize::MAX)
+}
+
+/// `maxd`: bound on the number of unyielded range elements (only for typed element types WITH drop
+/// glue, whose range destructor is the slice drop glue of core: a loop Kani must unwind)
+fn drain_hb<T: 'static>(typed: bool, drop: bool, how: usize, maxd: usize) {
     ghost_init();
     let (len, cap) = sym_state();
     let mut v = unsafe { mk_vec::<dyn None, T>(0, len, cap, false, drop) };
@@ -49,6 +55,7 @@ fn drain_h<T: 'static>(typed: bool, drop: bool, how: usize) {
     let w = if has_w { witness_slot(TW, 0, len) } else { 0 };
     watch_uninit(0, len, cap);
     let (start, end, f, b) = sym_range(len);
+    if maxd != usize::MAX { kani::assume(end - start - f - b <= maxd); }
 
     if !typed {
         let mut d = v.drain(start..end);
